@@ -527,7 +527,7 @@ type Map map[string]interface{}
 // ParseMap tries to parse a Map from JSON.
 func ParseMap(js string) (m Map, err error) {
 	err = json.Unmarshal([]byte(js), &m)
-	return m, nil
+	return m, err
 }
 
 func MustMap(js string) Map {
